@@ -44,8 +44,8 @@ func reqClass(q reqIn, code uint64) string {
 
 // rarest features first; a case is labelled by its two rarest features
 var featureOrder = []string{
-	"k1", "snap-error", "snap-outofdate", "save-error", "mode2", "mode1", "group", "snap-resave", "snap-install",
-	"snap-compact", "overwrite", "confchange", "malformed", "reopen", "entries-limited", "snap", "term", "entries", "mark", "cfg", "save",
+	"k1", "snap-error", "snap-outofdate", "snap-resave", "save-error", "malformed", "mode2", "overwrite", "snap-compact",
+	"mode1", "confchange", "group", "snap-install", "reopen", "entries-limited", "snap", "term", "entries", "mark", "cfg", "save",
 }
 
 func classString(cls map[string]bool) string {
@@ -280,7 +280,7 @@ func (s *shadow) genSave(r *rand.Rand, sc int, feat map[string]bool, willCommit 
 		if vh.Chance(r, 0.6) {
 			q.HS = w.hs(r, i)
 		}
-	case x < 800: // K1: a snapshot strictly inside the log that the log does not contain
+	case x < 786: // K1: a snapshot strictly inside the log that the log does not contain
 		if w.last() < w.snapIdx+2 {
 			q.HS = w.hs(r, 0)
 			break
